@@ -241,7 +241,12 @@ MPZ = {
     "addmul": _p([0]), "addmul_ui": _p([0]), "submul": _p([0]), "submul_ui": _p([0]),
     "set": _p([0]), "set_ui": _p([0]), "set_si": _p([0]),
     "init_set": _p([0]), "init_set_ui": _p([0]), "init_set_si": _p([0]), "init": _p([0]),
-    "tdiv_q": _p([0]), "tdiv_r": _p([0]), "tdiv_qr": _p([0, 1]),
+    "tdiv_q": _p([0]), "tdiv_r": _p([0]), "tdiv_qr": _p([0, 1]), "fdiv_qr": _p([0, 1]), "cdiv_qr": _p([0, 1]),
+    "tdiv_qr_ui": _p([0, 1], True), "fdiv_qr_ui": _p([0, 1], True), "cdiv_qr_ui": _p([0, 1], True),
+    "fits_slong_p": _p([], True), "fits_ulong_p": _p([], True), "fits_sint_p": _p([], True), "fits_uint_p": _p([], True),
+    "fits_sshort_p": _p([], True), "fits_ushort_p": _p([], True),
+    "divisible_p": _p([], True), "divisible_ui_p": _p([], True), "sgn": _p([], True),
+    "tdiv_r_2exp": _p([0]), "fdiv_r_2exp": _p([0]), "cdiv_q_2exp": _p([0]),
     "fdiv_q": _p([0]), "fdiv_r": _p([0]), "cdiv_q": _p([0]), "cdiv_r": _p([0]),
     "tdiv_q_ui": _p([0], True), "tdiv_r_ui": _p([0], True), "tdiv_ui": _p([], True),
     "fdiv_q_ui": _p([0], True), "fdiv_r_ui": _p([0], True), "fdiv_ui": _p([], True),
@@ -1056,7 +1061,7 @@ class Translated:
     pass
 
 
-def translate_function(prog, f, alias=None):
+def translate_function(prog, f, alias=None, sig_only=False):
     """returns Translated with .key .params [(leanname, code, ctype)] .tree .outs [(name, loc)] .rettype
 
     alias: optional list of groups (tuples of parameter positions, position 0 being `*this` for non-static
@@ -1144,7 +1149,8 @@ def translate_function(prog, f, alias=None):
                 r = wrap(r, rc[1])
         return Leaf(r, st_f)
 
-    tree = ex.ex_block([f.body], fr, st, cx, lambda st_f: finish(None, st_f), finish, f)
+    # sig_only: the body is outside the dialect -- keep the signature so that specification and harness stub still exist
+    tree = None if sig_only else ex.ex_block([f.body], fr, st, cx, lambda st_f: finish(None, st_f), finish, f)
     t = Translated()
     t.f = f
     t.key = func_key(f)
@@ -1184,6 +1190,8 @@ def tree_to_lean(tree, outs, ind=2):
 
 
 def tree_stats(tree):
+    if tree is None:
+        return (0, 0)
     if isinstance(tree, Ite):
         a, b = tree_stats(tree.a), tree_stats(tree.b)
         return (a[0] + b[0], a[1] + b[1])
